@@ -202,13 +202,13 @@ def convertReadP (p : Str) (e : Entry) : Prog (Option Bool) :=
 
 /-- what `Unpack` does about an existing object at the entry's path:
     0 merge / nothing there, 1 conflict error, 2 skip the entry, 3 remove it first -/
-def actOf (o : Opts) (l : Res) (e : Entry) (n : Str) : Nat :=
+def actOf (o : Opts) (l : Res) (e : Entry) (isSelf : Bool) : Nat :=
   match l with
   | .stat s =>
     let isD := s.kind == .dir
     if o.noOverwriteDirNonDir && isD && e.typ != .dir then 1
     else if o.noOverwriteDirNonDir && !isD && e.typ == .dir then 1
-    else if isD && n = dot then 2
+    else if isD && isSelf then 2            -- rel == ".": the entry names the destination itself (fix D23)
     else if !isD || e.typ != .dir then 3
     else 0
   | _ => 0
@@ -228,7 +228,7 @@ def unpackLoop (dest : Str) (o : Opts) : List Entry → List Entry → Prog Out
         if isErr i then return .err
         let l ← sys (.lstat p)
         -- decide: conflict / skip / replace
-        let act := actOf o l e n
+        let act := actOf o l e (p == clean dest)
         if act = 1 then return .err
         if act = 2 then unpackLoop dest o es dirs
         else
@@ -352,6 +352,7 @@ def layerLoop (dest : Str) (o : Opts) : List Entry → LState → Prog (Out × N
         else do
           let orig := join dr (b.drop whPrefix.length)
           if !isWithin dest orig then layerFinish dest st .breakout
+          else if orig = clean dest then layerFinish dest st .err      -- the layer root itself (fix D24)
           else
             let r ← whiteoutRemoveP orig
             match r with
